@@ -134,6 +134,16 @@ Definition w_K6_json_default : c04case := CJsonDefault [123%N; 34%N; 100%N; 34%N
 Lemma w_K6_json_default_holds : spec_C04 w_K6_json_default (run_C04 w_K6_json_default) = true /\ known_C04 w_K6_json_default = [].
 Proof. vm_compute. split; reflexivity. Qed.
 
+(* directed-update-int-above-2p53 : {'new': 'Int(9007199254740993)', 'note': 'read back 9007199254740993', 'old': 'Int(9007199254740992)'} *)
+Definition w_upd_2p53 : c04case := CUpd HParam 0 [9007199254740992] [9007199254740993].
+Lemma w_upd_2p53_holds : spec_C04 w_upd_2p53 (run_C04 w_upd_2p53) = true /\ known_C04 w_upd_2p53 = [].
+Proof. vm_compute. split; reflexivity. Qed.
+
+(* directed-service-multiline-literal : {'literals': ['def f(x):\n    return x', 'def f(x):\nreturn x', 'def f(x):\n\treturn x', 'def f(x):\r\n    return x', 'def f(x):  \n    return x', 'def f(x):\n\n    return x', 'def f(x):\n    return x  ', '  def f(x):\n    return x'], 'log': []} *)
+Definition w_svc_multiline : c04case := CSvc [[100%N; 101%N; 102%N; 32%N; 102%N; 40%N; 120%N; 41%N; 58%N; 10%N; 32%N; 32%N; 32%N; 32%N; 114%N; 101%N; 116%N; 117%N; 114%N; 110%N; 32%N; 120%N]; [100%N; 101%N; 102%N; 32%N; 102%N; 40%N; 120%N; 41%N; 58%N; 10%N; 114%N; 101%N; 116%N; 117%N; 114%N; 110%N; 32%N; 120%N]; [100%N; 101%N; 102%N; 32%N; 102%N; 40%N; 120%N; 41%N; 58%N; 10%N; 9%N; 114%N; 101%N; 116%N; 117%N; 114%N; 110%N; 32%N; 120%N]; [100%N; 101%N; 102%N; 32%N; 102%N; 40%N; 120%N; 41%N; 58%N; 13%N; 10%N; 32%N; 32%N; 32%N; 32%N; 114%N; 101%N; 116%N; 117%N; 114%N; 110%N; 32%N; 120%N]; [100%N; 101%N; 102%N; 32%N; 102%N; 40%N; 120%N; 41%N; 58%N; 32%N; 32%N; 10%N; 32%N; 32%N; 32%N; 32%N; 114%N; 101%N; 116%N; 117%N; 114%N; 110%N; 32%N; 120%N]; [100%N; 101%N; 102%N; 32%N; 102%N; 40%N; 120%N; 41%N; 58%N; 10%N; 10%N; 32%N; 32%N; 32%N; 32%N; 114%N; 101%N; 116%N; 117%N; 114%N; 110%N; 32%N; 120%N]; [100%N; 101%N; 102%N; 32%N; 102%N; 40%N; 120%N; 41%N; 58%N; 10%N; 32%N; 32%N; 32%N; 32%N; 114%N; 101%N; 116%N; 117%N; 114%N; 110%N; 32%N; 120%N; 32%N; 32%N]; [32%N; 32%N; 100%N; 101%N; 102%N; 32%N; 102%N; 40%N; 120%N; 41%N; 58%N; 10%N; 32%N; 32%N; 32%N; 32%N; 114%N; 101%N; 116%N; 117%N; 114%N; 110%N; 32%N; 120%N]].
+Lemma w_svc_multiline_holds : spec_C04 w_svc_multiline (run_C04 w_svc_multiline) = true /\ known_C04 w_svc_multiline = [].
+Proof. vm_compute. split; reflexivity. Qed.
+
 (* search : {'fts5': '', 'term': 'hello'} *)
 Definition w_search_plain : c04case := CSearch [104%N; 101%N; 108%N; 108%N; 111%N] true.
 Lemma w_search_plain_holds : spec_C04 w_search_plain (run_C04 w_search_plain) = true /\ known_C04 w_search_plain = [].
